@@ -75,6 +75,14 @@ def own_oracle(op, c):
     """the property's own demands on the C answer alone (None = fine)"""
     t = op.split()
     k = t[0]
+    if k == "rtl":
+        in_roundtrip_scope(t[1], t[2:])      # (initialises the constants table)
+        # an object of a loaded topology: every flag word without SHORT_NAMES must parse back (no consistency hypothesis)
+        if c.endswith("loops"):
+            return "hwloc_obj_type_snprintf does not terminate"
+        if not (int(t[1]) & _K["FLAG_SHORT_NAMES"]) and int(t[2]) <= _K["T_MISC"] and not c.endswith("match=1"):
+            return "object of a loaded topology: the text printed without SHORT_NAMES does not parse back to the same type/attributes"
+        return None
     if k == "rt":
         if c.endswith("loops"):
             return "hwloc_obj_type_snprintf does not terminate"
@@ -257,10 +265,10 @@ def annotate(op):
     t = op.split()
     if t[0] == "ssc":
         return 'hwloc_type_sscanf(%r, &type, %s)' % (unhex(t[2]), "NULL, 0" if t[1] == "null" else "&attr, %s" % t[1])
-    if t[0] in ("tsn", "asn", "rt"):
+    if t[0] in ("tsn", "asn", "rt", "rtl"):
         return "%s flags=%s%s obj: type=%s depth=%s cachetype=%s upstream=%s ostypes=0x%s" % (
-            {"tsn": "hwloc_obj_type_snprintf", "asn": "hwloc_obj_attr_snprintf", "rt": "type_snprintf then type_sscanf"}[t[0]],
-            t[1], "" if t[0] == "rt" else " size=" + t[2], *(lambda o: (o[0], o[1], o[2], o[8], o[22]))(t[{"tsn": 3, "asn": 4, "rt": 2}[t[0]]:]))
+            {"tsn": "hwloc_obj_type_snprintf", "asn": "hwloc_obj_attr_snprintf", "rt": "type_snprintf then type_sscanf", "rtl": "type_snprintf then type_sscanf (loaded object)"}[t[0]],
+            t[1], "" if t[0] in ("rt", "rtl") else " size=" + t[2], *(lambda o: (o[0], o[1], o[2], o[8], o[22]))(t[{"tsn": 3, "asn": 4, "rt": 2, "rtl": 2}[t[0]]:]))
     return op
 
 
@@ -338,7 +346,7 @@ def run_engine(tier, seed, corpus_dir=None):
                 else:
                     ret = int(ct[1]) if len(ct) > 1 and ct[1].lstrip("-").isdigit() else -1
                     key += "_trunc" if ret >= int(t[2]) else "_exactfit" if ret == int(t[2]) - 1 else "_fits"
-            elif t[0] == "rt":
+            elif t[0] in ("rt", "rtl"):
                 key += "_match" if c.endswith("match=1") else "_nomatch"
             dist[key] = dist.get(key, 0) + 1
     for r in results:
